@@ -150,6 +150,26 @@ static void stubThreadStart(void* instance, U32 tid, U32 arg) {
     pthread_mutex_unlock(&startLock);
 }
 static void stubOther(void* instance) { (void)instance; }
+
+/* spawnx: every candidate export has its own entry function that records WHICH export ran */
+static struct { int idx; U32 tid; U32 arg; int childOk; } xruns[4096];
+static int nXruns = 0;
+static void xrecord(int idx, void* instance, U32 tid, U32 arg) {
+    StubInstance* c = (StubInstance*)instance;
+    pthread_mutex_lock(&startLock);
+    if (nXruns < 4096) {
+        xruns[nXruns].idx = idx; xruns[nXruns].tid = tid; xruns[nXruns].arg = arg;
+        xruns[nXruns].childOk = c->parent != NULL && c->parent->parent == NULL && c->sharedMem == &stubShared;
+        nXruns++;
+    }
+    pthread_mutex_unlock(&startLock);
+}
+#define XENTRY(n) static void xentry##n(void* i, U32 t, U32 a) { xrecord(n, i, t, a); }
+XENTRY(0) XENTRY(1) XENTRY(2) XENTRY(3) XENTRY(4) XENTRY(5) XENTRY(6) XENTRY(7)
+XENTRY(8) XENTRY(9) XENTRY(10) XENTRY(11) XENTRY(12) XENTRY(13) XENTRY(14) XENTRY(15)
+typedef void (*xentry_t)(void*, U32, U32);
+static xentry_t xentries[16] = { xentry0, xentry1, xentry2, xentry3, xentry4, xentry5, xentry6, xentry7,
+                                 xentry8, xentry9, xentry10, xentry11, xentry12, xentry13, xentry14, xentry15 };
 typedef struct { StubInstance* inst; int per; U32 base; U32* ids; } SpawnerArg;
 static void* spawner(void* a) {
     SpawnerArg* s = (SpawnerArg*)a; int i;
@@ -391,6 +411,47 @@ int main(void) {
             }
             waitpid(pid, &st, 0);
             if (!(WIFEXITED(st) && WEXITSTATUS(st) == 0)) printf("err spawn-child %d\n", st);
+
+        } else if (strcmp(tok[0], "spawnx") == 0 && nt >= 4) {       /* spawnx ncalls argbase k namehex*k : export table of k functions */
+            int ncalls = atoi(tok[1]), k = atoi(tok[3]); U32 argbase = (U32)strtoul(tok[2], NULL, 10);
+            pid_t pid; int st = 0;
+            if (k < 0 || k > 16 || nt != 4 + k || ncalls > 64) { printf("err arity\n"); continue; }
+            fflush(stdout);
+            pid = fork();
+            if (pid == 0) {
+                wasmFuncExport* exps = (wasmFuncExport*)calloc((size_t)k + 1, sizeof(wasmFuncExport));
+                StubInstance inst; I32 rets[64]; int i, j, tries, nok = 0;
+                memset(&inst, 0, sizeof inst);
+                for (i = 0; i < k; i++) { size_t l; exps[i].func = (wasmFunc)xentries[i]; exps[i].name = (char*)unhex(tok[4 + i], &l, 1); }
+                exps[k].func = NULL; exps[k].name = NULL;
+                inst.common.funcExports = exps; inst.common.newChild = stubNewChild; inst.sharedMem = &stubShared;
+                for (i = 0; i < ncalls; i++) {
+                    rets[i] = (I32)wasi__threadX2Dspawn(&inst.common, argbase + (U32)i);
+                    if (rets[i] >= 0) nok++;
+                }
+                for (tries = 0; tries < 2000; tries++) {
+                    int done; pthread_mutex_lock(&startLock); done = nXruns >= nok; pthread_mutex_unlock(&startLock);
+                    if (done) break;
+                    usleep(1000);
+                }
+                usleep(5000);
+                printf("ret");
+                for (i = 0; i < ncalls; i++) printf("%s%d", i ? "," : " ", rets[i]);
+                if (ncalls == 0) printf(" -");
+                printf(" ran");
+                /* sorted by tid (selection) */
+                for (i = 0; i < nXruns; i++) for (j = i + 1; j < nXruns; j++) if (xruns[j].tid < xruns[i].tid) {
+                    int a = xruns[i].idx, c = xruns[i].childOk; U32 t = xruns[i].tid, g = xruns[i].arg;
+                    xruns[i] = xruns[j]; xruns[j].idx = a; xruns[j].tid = t; xruns[j].arg = g; xruns[j].childOk = c;
+                }
+                for (i = 0; i < nXruns; i++) printf("%s%d:%u:%u:%d", i ? "," : " ", xruns[i].idx, xruns[i].tid, xruns[i].arg, xruns[i].childOk);
+                if (nXruns == 0) printf(" -");
+                printf(" children %d\n", nChildren);
+                fflush(stdout);
+                _exit(0);
+            }
+            waitpid(pid, &st, 0);
+            if (!(WIFEXITED(st) && WEXITSTATUS(st) == 0)) printf("err spawnx-child %d\n", st);
 
         } else if ((strcmp(tok[0], "mkdir") == 0 || strcmp(tok[0], "rmdir") == 0 || strcmp(tok[0], "unlink") == 0) && nt == 4) {
             /* op fd availhex len : the guest path bytes are the LAST bytes of the memory */
